@@ -619,7 +619,13 @@ class EvalMixin:
 
     def ev_IfExp(self, e, st):
         for c, st1 in self.ev(e.test, st):
-            cond = self.truth(c, st1)
+            cond = z3.simplify(self.truth(c, st1))
+            if z3.is_true(cond):
+                yield from self.ev(e.body, st1)
+                continue
+            if z3.is_false(cond):
+                yield from self.ev(e.orelse, st1)
+                continue
             if not has_impure_call(e.body) and not has_impure_call(e.orelse):
                 ga, gb = st1.fork(), st1.fork()
                 ga.pc.append(cond); gb.pc.append(z3.Not(cond))
